@@ -5,7 +5,7 @@ EXTENDS MidiTrackCalls, TLC, Json
 CONSTANTS MaxLen, Emitting
 VARIABLES w, hist
 Nt(n, o, ch, vel) == [n |-> n, o |-> o, ch |-> ch, vel |-> vel]
-C4 == Nt(<<"C">>, 4, 0, 100)
+
 E4 == Nt(<<"E">>, 4, 0, 90)
 G3 == Nt(<<"G">>, 3, 2, 64)
 A0(op) == [op |-> op, n |-> 0, notes |-> <<>>, ch |-> 0, instr |-> 0, bank |-> 0, bpm |-> 0, meter |-> <<4, 4>>, key |-> <<"C">>, txt |-> <<>>, entries |-> <<>>]
